@@ -573,6 +573,12 @@ def call_builtin(ex, name: str, args, kwargs, st: State, node) -> Term:
             return ex.new_obj(st, "bytearray")
         if name == "bytearray":
             items = ex.iter_items(A[0], st) if not (is_const(A[0]) and isinstance(cval(A[0]), int)) else None
+            if items is not None and not is_const(A[0]) and A[0].op in ("bin", "call") and not ex.sym_bytes:
+                # bytearray(n.to_bytes(4, "big")): kept as the first step of the construction history (an integer field), not as its single bytes
+                from .exprs import _bytes_of_ints
+
+                if _bytes_of_ints(A[0]) is not None:
+                    items = None
             r = ex.new_obj(st, "bytearray")
             o = ex.obj(st, r)
             if items is not None:
